@@ -52,6 +52,9 @@ def run(ctx, broken):
     if ctx.tier != "quick":
         progs += [("sized-%d" % g, sized_program(rng, g, (4,)).src(), 2 * g + 16) for g in (9, 31, 33, 60, 64, 120)]
     cs = []
+    # many public inputs, public inputs on rows >= 256 (two-byte row indexes), on the last row
+    progs.append(("many-pis", sized_program(rng, 60, tuple(range(4, 44))).src(), 128))
+    progs.append(("pi-rows-above-256", sized_program(rng, 300, (4, 257, 290, 299)).src(), 600))
     # circuits using exactly ONE of the custom widgets (its selector polynomial has full length, the others are empty), and pairs:
     # a codec that takes a length / offset of one key polynomial from another one is invisible when all are equal
     from props.c05 import raw_family_case
